@@ -161,6 +161,19 @@ func evalNameF(info *types.Info, fr *frame, e ast.Expr, depth int) form {
 	if s, ok := core.StringConst(info, e); ok {
 		return form{{lit: s}}
 	}
+	// string(x), []byte(x): the same text
+	if call, ok := e.(*ast.CallExpr); ok && len(call.Args) == 1 {
+		if tv, ok := info.Types[call.Fun]; ok && tv.IsType() {
+			if b, ok := tv.Type.Underlying().(*types.Basic); ok && b.Info()&types.IsString != 0 {
+				return evalNameF(info, fr, call.Args[0], depth)
+			}
+			if sl, ok := tv.Type.Underlying().(*types.Slice); ok {
+				if b, ok := sl.Elem().Underlying().(*types.Basic); ok && b.Kind() == types.Byte {
+					return evalNameF(info, fr, call.Args[0], depth)
+				}
+			}
+		}
+	}
 	switch v := e.(type) {
 	case *ast.Ident, *ast.SelectorExpr:
 		if r, rfr := resolveF(info, fr, e, 6); r != e && depth > 0 {
@@ -822,7 +835,15 @@ func (st *state) reader(fn *core.Fn, depth int) {
 				hs := f.holes()
 				okShape := haveWriter && sameShape(f, want)
 				okHole := len(hs) == 1 && paramIndex(info, fn, hs[0]) >= 0
-				if !haveWriter {
+				onlyHoles := true
+				for _, sg := range f {
+					if sg.hole == nil {
+						onlyHoles = false
+					}
+				}
+				if !okShape && onlyHoles {
+					c.Undecidedf("R1.reader", key, cons.Pos(), "the name the %s field is compared with (`%s`) cannot be evaluated", role, c.Src(hs[0]))
+				} else if !haveWriter {
 					c.Undecidedf("R1.reader", key, cons.Pos(), "the sender's name for the %s is unknown", role)
 				} else if okShape && !okHole {
 					c.Undecidedf("R1.reader", key, cons.Pos(), "the address in the compared name is not a parameter of fetchCheckpoint")
